@@ -63,13 +63,23 @@ func (ex *Exec) obligation(cond *Term, msg string, kind string) {
 	case Sat:
 		ex.recordViolation(kind, msg, model)
 	default:
-		ex.res.Unknown++
+		// second opinion from cvc5 / z3 5.x on the same query (only "unsat" is taken from them:
+		// a "sat" without a model cannot be replayed, so it stays inconclusive)
+		if r2, who := ex.sol.SecondOpinion(ex.pc, neg, ex.cfg.SecondTimeoutS); r2 == Unsat {
+			ex.res.Discharged++
+			ex.res.SecondOpinion = append(ex.res.SecondOpinion, msg+" (unsat by "+who+")")
+		} else {
+			ex.res.Unknown++
+			ex.res.UnknownMsgs = append(ex.res.UnknownMsgs, msg)
+		}
 	}
-	// continue under the assumption that the assertion holds
-	if ex.check(cond) == Unsat {
+	// continue under the assumption that the assertion holds (implied by pc when it was discharged)
+	if r != Unsat && ex.check(cond) == Unsat {
 		panic(pathPruned{"assertion cannot hold"})
 	}
-	ex.addPC(cond)
+	if r != Unsat {
+		ex.addPC(cond)
+	}
 }
 
 func (ex *Exec) recordViolation(kind, msg string, model map[*Term]uint64) {
@@ -211,6 +221,15 @@ func init() {
 	reg(rtPkg+"Assert", func(ex *Exec, g *G, fn *ssa.Function, a []Value) (Value, bool) {
 		ex.obligation(a[0].(*Term), mustStr(a[1]), "assert")
 		return nil, true
+	})
+	reg(rtPkg+"And", func(ex *Exec, g *G, fn *ssa.Function, a []Value) (Value, bool) {
+		return ex.ts.And(a[0].(*Term), a[1].(*Term)), true
+	})
+	reg(rtPkg+"Or", func(ex *Exec, g *G, fn *ssa.Function, a []Value) (Value, bool) {
+		return ex.ts.Or(a[0].(*Term), a[1].(*Term)), true
+	})
+	reg(rtPkg+"Implies", func(ex *Exec, g *G, fn *ssa.Function, a []Value) (Value, bool) {
+		return ex.ts.Implies(a[0].(*Term), a[1].(*Term)), true
 	})
 	reg(rtPkg+"Reach", func(ex *Exec, g *G, fn *ssa.Function, a []Value) (Value, bool) {
 		l := mustStr(a[0])
